@@ -69,6 +69,12 @@ $(B)/libvotca.a: $(LIB_OBJ)
 	@rm -f $@
 	ar rcs $@ $^
 
+# the simulator runs all tasks on one OS thread: thread_local storage in the code under test would be shared
+# between the simulated threads.  Refuse to build rather than report results that mean nothing.
+define TLS_CHECK
+	@for o in $(1); do if readelf -S $$o | grep -q '\.tbss\|\.tdata'; then echo "HARNESS-ERROR thread_local storage in $$o: not supported by the coroutine simulator (DESIGN.md section 7)"; exit 1; fi; done
+endef
+
 # ---- tool sources with renamed main ---------------------------------------
 $(B)/tool/csg_stat.o: $(REPO)/csg/src/tools/csg_stat.cc | $(GEN)/.stamp
 	@mkdir -p $(dir $@)
@@ -105,11 +111,13 @@ C10W := $(call wrapflags,$(WRAP_PROC))
 
 $(B)/bin/c05_lib: $(B)/sim/c05/c05_lib.o $(B)/sim/c05/c05_common.o $(CORE_OBJ) $(B)/libvotca.a
 	@mkdir -p $(dir $@)
+	$(call TLS_CHECK,$(LIB_OBJ))
 	$(CXX) $(OPT) -o $@ $(B)/sim/c05/c05_lib.o $(B)/sim/c05/c05_common.o $(CORE_OBJ) $(B)/libvotca.a $(C05W) $(LIBS)
 
 define TOOL_ENGINE
 $(B)/bin/$(1): $(B)/sim/c05/c05_tool.o $(B)/sim/c05/gen_$(1).o $(B)/sim/c05/c05_common.o $(CORE_OBJ) $(2) $(B)/libvotca.a
 	@mkdir -p $$(dir $$@)
+	$$(call TLS_CHECK,$(2) $(B)/repo/csg/src/libcsg/csgapplication.o $(B)/repo/tools/src/libtools/thread.o $(B)/repo/tools/src/libtools/mutex.o)
 	$(CXX) $(OPT) -o $$@ $(B)/sim/c05/c05_tool.o $(B)/sim/c05/gen_$(1).o $(B)/sim/c05/c05_common.o $(CORE_OBJ) $(2) $(B)/libvotca.a $(C05W) $(LIBS)
 endef
 $(eval $(call TOOL_ENGINE,c05_stat,$(B)/tool/csg_stat.o $(B)/repo/csg/src/tools/csg_stat_imc.o))
@@ -120,6 +128,7 @@ $(eval $(call TOOL_ENGINE,c05_tmpl,$(B)/tool/template_threaded.o))
 
 $(B)/bin/c10_jobs: $(B)/sim/c10/c10_jobs.o $(B)/sim/c10/io_interpose.o $(CORE_OBJ) $(XTP_OBJ) $(B)/libvotca.a
 	@mkdir -p $(dir $@)
+	$(call TLS_CHECK,$(XTP_OBJ) $(B)/repo/tools/src/libtools/thread.o $(B)/repo/tools/src/libtools/mutex.o $(B)/repo/tools/src/libtools/property.o)
 	$(CXX) $(OPT) -o $@ $(B)/sim/c10/c10_jobs.o $(B)/sim/c10/io_interpose.o $(CORE_OBJ) $(XTP_OBJ) $(B)/libvotca.a $(C10W) $(LIBS)
 
 -include $(shell find $(B) -name '*.d' 2>/dev/null)
